@@ -22,7 +22,8 @@ pub struct C09;
 const LONG_CASES: u64 = 6;
 
 const RATES: [f64; 5] = [1.0, 0.5, 2.0, 1.5, 0.0];
-const PACKETS: [&[usize]; 5] = [&[1], &[2], &[3], &[64], &[1, 3, 2]];
+/// 0 = an empty chunk
+const PACKETS: [&[usize]; 5] = [&[1], &[2], &[3], &[64], &[0, 1, 3, 0, 2]];
 const GRANS: [usize; 3] = [1, 3, 8];
 const CHUNKS: [usize; 2] = [1, 3];
 const LETTERS: [&str; 12] = [
